@@ -447,4 +447,120 @@ theorem rescan_sim2 (c : Cfg) (k : Comp) (p : Pred) (hk : c.skip k = .pred p) (h
         | cons d ds' => simp only [List.length_cons] at this; omega
       exact ⟨rr, by rw [hdd], by rw [hri]; omega⟩
 
+theorem rescan_empty (c : Cfg) (k : Comp) (r : Nat) (hreach : ∀ k, c.skip k ≠ .unreachable) :
+    ∃ ds' e', parseDigits c k r (Bytes.new []) = .ok (ds', e') ∧ e'.index = ([] : List Nat).length := by
+  refine ⟨[], Bytes.new [], ?_, rfl⟩
+  unfold parseDigits
+  rw [parseDigitsLoop.eq_2, peek_at_nonsep c k _ (hreach k) (by intro x hx; simp [Bytes.new] at hx)]
+  simp [Bytes.new, bind, Except.bind, pure, Except.pure]
+
+/-- **re-scan consistency for every separator predicate except I+T+C**; the byte behind the region only has to be no
+digit (it may be a separator the first pass refused to skip) -/
+theorem rescan_pred2 (c : Cfg) (k : Comp) (p : Pred) (hk : c.skip k = .pred p) (hp : p ≠ .itc) (hd : c.debug = false)
+    (hreach : ∀ k, c.skip k ≠ .unreachable) (hf : c.feats.format = true) (hks : k ≠ .special)
+    (hsep : ∀ x, c.isSep x = true → charToDigit x c.mantissaRadix = none)
+    (b e : Bytes) (ds : List Nat) (hR : Run c k c.mantissaRadix b e ds) (h0 : Bytes.iterCount c k b = 0)
+    (hv : Bytes.Valid b)
+    (hprev : (∀ x, getPrev b.slc b.index = some x → c.isDigit x = false ∧ c.isSep x = false) ∨
+      (∀ x, b.slc[b.index]? = some x → c.isSep x = false))
+    (hstop : ∀ x, b.slc[e.index]? = some x → c.isDigit x = false) :
+    ∃ ds' e', parseDigits c k c.mantissaRadix (Bytes.new (slice b.slc b.index e.index)) = .ok (ds', e') ∧
+      e'.index = (slice b.slc b.index e.index).length := by
+  have hc := contig_of_pred c k p hk
+  have hrun := hR.run
+  unfold parseDigits at hrun
+  have hnew : Bytes.iterCount c k (Bytes.new (slice b.slc b.index e.index)) = Bytes.iterCount c k b := by
+    rw [h0]; cases k <;> simp_all [Bytes.iterCount, Bytes.new]
+  obtain ⟨e', g1, g2⟩ := rescan_sim2 c k p hk hd hc hf hks hsep b.slc b.index e.index hR.valid hprev hstop
+    (b.slc.length + 1) b e (Bytes.new (slice b.slc b.index e.index)) ds hrun rfl (Nat.le_refl _) rfl rfl
+    (by simp [Bytes.new]) hnew (Or.inl hp)
+  obtain ⟨ds', e'', hrun', _⟩ := PNTotal.parseDigits_tot ⟨hd, hreach⟩ k c.mantissaRadix
+    (Bytes.new (slice b.slc b.index e.index)) (by simp [Bytes.new])
+  refine ⟨ds', e'', hrun', ?_⟩
+  unfold parseDigits at hrun'
+  have hlen : (slice b.slc b.index e.index).length = e.index - b.index := slice_length _ _ _ hR.valid
+  have := parseDigitsLoop_fuel_le c k c.mantissaRadix hd _ (b.slc.length + 1)
+    (by simp only [new_slc, hlen]; have := hR.valid; omega) _ _ _ hrun'
+  rw [g1] at this
+  simp only [Except.ok.injEq, Prod.mk.injEq] at this
+  rw [← this.2, g2, hlen]
+
+/-- **re-scan consistency for I+T+C when the first pass starts on a byte that is no separator** (what the entry points
+give the integer component of a format without base prefix: `is_consumed`'s `peek` has skipped the leading separators):
+after the first digit the predicate is constantly true in both passes -/
+theorem rescan_itc_start (c : Cfg) (k : Comp) (hk : c.skip k = .pred .itc) (hd : c.debug = false)
+    (hreach : ∀ k, c.skip k ≠ .unreachable) (hf : c.feats.format = true) (hks : k ≠ .special)
+    (hsep : ∀ x, c.isSep x = true → charToDigit x c.mantissaRadix = none)
+    (b e : Bytes) (ds : List Nat) (hR : Run c k c.mantissaRadix b e ds) (h0 : Bytes.iterCount c k b = 0)
+    (hv : Bytes.Valid b) (hstart : ∀ x, b.slc[b.index]? = some x → c.isSep x = false)
+    (hstop : ∀ x, b.slc[e.index]? = some x → c.isDigit x = false) :
+    ∃ ds' e', parseDigits c k c.mantissaRadix (Bytes.new (slice b.slc b.index e.index)) = .ok (ds', e') ∧
+      e'.index = (slice b.slc b.index e.index).length := by
+  have hc := contig_of_pred c k .itc hk
+  have hrun := hR.run
+  unfold parseDigits at hrun
+  rw [parseDigitsLoop.eq_2, peek_at_nonsep c k b (hreach k) hstart] at hrun
+  simp only [bind, Except.bind] at hrun
+  have hempty : e = b → ∃ ds' e', parseDigits c k c.mantissaRadix (Bytes.new (slice b.slc b.index e.index)) = .ok (ds', e') ∧
+      e'.index = (slice b.slc b.index e.index).length := by
+    intro he; subst he; rw [slice_self]; exact rescan_empty c k _ hreach
+  cases hg : b.slc[b.index]? with
+  | none =>
+    rw [hg] at hrun
+    simp only [pure, Except.pure, Except.ok.injEq, Prod.mk.injEq] at hrun
+    exact hempty hrun.2.symm
+  | some ch =>
+    rw [hg] at hrun
+    simp only at hrun
+    cases hdg : charToDigit ch c.mantissaRadix with
+    | none =>
+      simp only [hdg, pure, Except.pure, Except.ok.injEq, Prod.mk.injEq] at hrun
+      exact hempty hrun.2.symm
+    | some d =>
+      simp only [hdg, iterStep, stepUnchecked_release c _ _ hd] at hrun
+      cases hrec : parseDigitsLoop c k c.mantissaRadix b.slc.length (Bytes.incCount c k { b with index := b.index + 1 }) with
+      | error er => simp only [hrec] at hrun; cases hrun
+      | ok r2 =>
+        obtain ⟨ds2, e2⟩ := r2
+        simp only [hrec, pure, Except.pure, Except.ok.injEq, Prod.mk.injEq] at hrun
+        obtain ⟨hds, he2⟩ := hrun
+        subst he2
+        have hlt : b.index < b.slc.length := (List.getElem?_eq_some_iff.mp hg).1
+        have hi1 := incCount_spec c k { b with index := b.index + 1 }
+        have hge : b.index + 1 ≤ e2.index := by
+          have := (parseDigitsLoop_spec c k c.mantissaRadix hd _ _ _ _
+            (by unfold Bytes.Valid; rw [hi1.1, hi1.2]; simp only; omega) hrec).2.2
+          rw [hi1.2] at this; simp only at this; omega
+        have hlen : (slice b.slc b.index e2.index).length = e2.index - b.index := slice_length _ _ _ hR.valid
+        have hR0 : (slice b.slc b.index e2.index)[0]? = some ch := by
+          rw [slice_get _ _ _ 0 (by omega)]; exact hg
+        have hnew : Bytes.iterCount c k (Bytes.new (slice b.slc b.index e2.index)) = Bytes.iterCount c k b := by
+          rw [h0]; cases k <;> simp_all [Bytes.iterCount, Bytes.new]
+        have hi2 := incCount_spec c k { (Bytes.new (slice b.slc b.index e2.index)) with index := 0 + 1 }
+        obtain ⟨e', g1, g2⟩ := rescan_sim2 c k .itc hk hd hc hf hks hsep b.slc b.index e2.index hR.valid (Or.inr hstart) hstop
+          b.slc.length (Bytes.incCount c k { b with index := b.index + 1 }) e2
+          (Bytes.incCount c k { (Bytes.new (slice b.slc b.index e2.index)) with index := 0 + 1 }) ds2 hrec
+          (by rw [hi1.1]) (by rw [hi1.2]; simp only; omega) rfl (by rw [hi2.1]; rfl)
+          (by rw [hi2.2, hi1.2]; simp only; omega)
+          (iterCount_inc c k hc hf hks _ _ _ _ hnew) (Or.inr (iterCount_inc_ne c k hc hf hks _))
+        obtain ⟨ds', e'', hrun', _⟩ := PNTotal.parseDigits_tot ⟨hd, hreach⟩ k c.mantissaRadix
+          (Bytes.new (slice b.slc b.index e2.index)) (by simp [Bytes.new])
+        refine ⟨ds', e'', hrun', ?_⟩
+        unfold parseDigits at hrun'
+        have hfull : parseDigitsLoop c k c.mantissaRadix (b.slc.length + 1) (Bytes.new (slice b.slc b.index e2.index))
+            = .ok (d :: ds2, e') := by
+          rw [parseDigitsLoop.eq_2, peek_at_nonsep c k _ (hreach k) (by
+            intro x hx
+            simp only [Bytes.new] at hx
+            rw [hR0] at hx; cases hx; exact hstart ch hg)]
+          simp only [Bytes.new, hR0, bind, Except.bind, hdg, iterStep, stepUnchecked_release c _ _ hd]
+          simp only [Bytes.new] at g1
+          rw [g1]
+          rfl
+        have := parseDigitsLoop_fuel_le c k c.mantissaRadix hd _ (b.slc.length + 1)
+          (by simp only [new_slc, hlen]; have := hR.valid; omega) _ _ _ hrun'
+        rw [hfull] at this
+        simp only [Except.ok.injEq, Prod.mk.injEq] at this
+        rw [← this.2, g2, hlen]
+
 end LexVerif.Proof.Sep
